@@ -781,31 +781,49 @@ pub fn case_line(uw: &c07::World, ops: &[Op], with_listener: bool) -> String {
 /// one, the rest is dropped. What was dropped was not relayed: the peer -> client counter of the protocol must equal the
 /// payload bytes of the 6.4 records the client was actually sent (no model here: which ones are dropped is scheduling).
 fn h1_datagram_bursts(ctx: &mut Ctx, tw: &TcpWorld, uw: &c07::World, up_is_outbound: bool) {
+    datagram_bursts(ctx, tw, uw, up_is_outbound, false);
+    // HTTP/2: the datagram sink drops what the stream's send window cannot take; three datagrams of 30 KB at once do not fit
+    datagram_bursts(ctx, tw, uw, up_is_outbound, true);
+}
+
+fn datagram_bursts(ctx: &mut Ctx, tw: &TcpWorld, uw: &c07::World, up_is_outbound: bool, h2: bool) {
     let rt = tokio::runtime::Builder::new_current_thread().enable_all().start_paused(true).build().unwrap();
     let r: Result<(i64, usize, usize), String> = rt.block_on(async {
         let core = make_core(None);
         let mut h = Hist { core, tw, uw, sess: vec![], tuns: vec![], icmp_id: 0x2001, icmp_seq: 0, _icmp: None };
         h.settle().await;
-        for op in [Op::SessOpen(1), Op::TunOpen(0, 'U'), Op::UdpUp(0, 0, 10)] {
+        for op in [Op::SessOpen(if h2 { 2 } else { 1 }), Op::TunOpen(0, 'U'), Op::UdpUp(0, 0, 10)] {
             h.apply(&op).await.map_err(|e| format!("{}: {}", op_tok(&op), e))?;
             h.settle().await;
         }
         let mut sent = 0usize;
         for round in 0..10usize {
             for k in 0..3usize {
-                let n = 100 + round + k;
+                let n = if h2 { 30_000 } else { 100 } + round + k;
                 h.apply(&Op::UdpDown(0, 0, n)).await?;
                 sent += n;
             }
             h.settle().await;
         }
         let series = parse_series(&verif::metrics_text(&h.core));
-        let counted = if up_is_outbound { series.in1 } else { series.out1 };
-        let got = match &h.sess[0] {
-            Sess::H1(x) => x.received.clone(),
-            _ => vec![],
+        let counted = match (h2, up_is_outbound) {
+            (false, true) => series.in1,
+            (false, false) => series.out1,
+            (true, true) => series.in2,
+            (true, false) => series.out2,
         };
-        let body = got.windows(4).position(|w| w == b"\r\n\r\n").map(|p| got[p + 4..].to_vec()).ok_or("no response head on the _udp2 tunnel")?;
+        let body = if h2 {
+            match &h.tuns[0].io {
+                TunIo::H2(st) => st.received.clone(),
+                _ => return Err("no HTTP/2 stream for the _udp2 tunnel".into()),
+            }
+        } else {
+            let got = match &h.sess[0] {
+                Sess::H1(x) => x.received.clone(),
+                _ => vec![],
+            };
+            got.windows(4).position(|w| w == b"\r\n\r\n").map(|p| got[p + 4..].to_vec()).ok_or("no response head on the _udp2 tunnel")?
+        };
         // 6.4 records: 4-byte length (excluding itself), 16+2 source, 16+2 destination, payload
         let (mut pos, mut delivered) = (0usize, 0usize);
         while pos + 4 <= body.len() {
@@ -820,19 +838,19 @@ fn h1_datagram_bursts(ctx: &mut Ctx, tw: &TcpWorld, uw: &c07::World, up_is_outbo
     });
     match r {
         Ok((counted, delivered, sent)) => {
-            ctx.stat("h1_datagram_bursts");
-            ctx.stat(if delivered < sent { "h1_datagram_bursts_with_drops" } else { "h1_datagram_bursts_all_delivered" });
+            ctx.stat(if h2 { "h2_datagram_bursts" } else { "h1_datagram_bursts" });
+            ctx.stat(&format!("{}_datagram_bursts_{}", if h2 { "h2" } else { "h1" }, if delivered < sent { "with_drops" } else { "all_delivered" }));
             if counted != delivered as i64 {
                 ctx.oracle_failure(
                     "counter_vs_delivered",
                     &format!(
-                        "HTTP/1.1 _udp2 tunnel, ten bursts of three datagrams from the peer ({} payload bytes): the client was sent records with {} payload bytes, the peer -> client traffic counter of http1 says {}",
-                        sent, delivered, counted
+                        "{} _udp2 tunnel, ten bursts of three datagrams from the peer ({} payload bytes): the client was sent records with {} payload bytes, the peer -> client traffic counter of {} says {}",
+                        if h2 { "HTTP/2" } else { "HTTP/1.1" }, sent, delivered, if h2 { "http2" } else { "http1" }, counted
                     ),
                 );
             }
         }
-        Err(e) => ctx.oracle_failure("harness", &format!("h1 datagram bursts: {}", e)),
+        Err(e) => ctx.oracle_failure("harness", &format!("{} datagram bursts: {}", if h2 { "h2" } else { "h1" }, e)),
     }
 }
 
